@@ -207,23 +207,51 @@ pub enum Step {
     AppendAtLeader,
     /// append at node i
     AppendAt(u8),
+    /// append at the lowest-numbered leader other than node i
+    AppendAtLeaderOtherThan(u8),
     /// n default steps
     Default(u32),
 }
 
-pub fn build_base(name: &'static str, script: &[Step]) -> Base {
+/// names of base states whose script could not be completed on the code under test (skipped, reported)
+pub static SKIPPED_BASES: Mutex<Vec<String>> = Mutex::new(Vec::new());
+
+struct BaseFailed(String);
+
+pub fn build_base(name: &'static str, script: &[Step]) -> Option<Base> {
+    match engine::catch(|| build_base_inner(name, script)) {
+        Ok(Ok(b)) => Some(b),
+        Ok(Err(BaseFailed(why))) => {
+            eprintln!("base {name} skipped: {why}");
+            SKIPPED_BASES.lock().unwrap().push(format!("{name}: {why}"));
+            None
+        }
+        Err(p) if p.message.starts_with("BASE-NOT-CONSTRUCTIBLE") => {
+            eprintln!("base {name} skipped: {}", p.message);
+            SKIPPED_BASES.lock().unwrap().push(format!("{name}: {}", p.message));
+            None
+        }
+        Err(p) => engine::machinery_failure(&format!("panic while building base {name}: {} at {}", p.message, p.location)),
+    }
+}
+
+fn build_base_inner(name: &'static str, script: &[Step]) -> Result<Base, BaseFailed> {
     let mut w = World::new(false);
     let mut events = vec![];
     let mut go = |w: &mut World, ev: Event, events: &mut Vec<Event>| {
-        w.apply(ev).unwrap_or_else(|e| engine::machinery_failure(&format!("base {name}: {} not enabled: {e}", ev.to_text())));
+        w.apply(ev).unwrap_or_else(|e| panic!("BASE-NOT-CONSTRUCTIBLE {} not enabled: {e}", ev.to_text()));
         events.push(ev);
     };
     for s in script {
         match s {
             Step::Ev(e) => go(&mut w, *e, &mut events),
             Step::AppendAt(i) => go(&mut w, Event::Append(*i), &mut events),
+            Step::AppendAtLeaderOtherThan(i) => {
+                let l = *w.leaders().iter().find(|l| **l != *i as usize).unwrap_or_else(|| panic!("BASE-NOT-CONSTRUCTIBLE no leader other than {i} to append at"));
+                go(&mut w, Event::Append(l as u8), &mut events);
+            }
             Step::AppendAtLeader => {
-                let l = *w.leaders().first().unwrap_or_else(|| engine::machinery_failure(&format!("base {name}: no leader to append at")));
+                let l = *w.leaders().first().unwrap_or_else(|| panic!("BASE-NOT-CONSTRUCTIBLE no leader to append at"));
                 go(&mut w, Event::Append(l as u8), &mut events);
             }
             Step::Default(n) => {
@@ -239,7 +267,7 @@ pub fn build_base(name: &'static str, script: &[Step]) -> Base {
                     go(&mut w, ev, &mut events);
                     n += 1;
                     if n > 2000 {
-                        engine::machinery_failure(&format!("base {name}: no node other than {i} becomes leader on the default schedule"));
+                        return Err(BaseFailed(format!("no node other than {i} becomes leader on the default schedule")));
                     }
                 }
             }
@@ -250,7 +278,7 @@ pub fn build_base(name: &'static str, script: &[Step]) -> Base {
                     go(&mut w, ev, &mut events);
                     n += 1;
                     if n > 2000 {
-                        engine::machinery_failure(&format!("base {name}: node {i} does not become candidate on the default schedule"));
+                        return Err(BaseFailed(format!("node {i} does not become candidate on the default schedule")));
                     }
                 }
             }
@@ -261,7 +289,7 @@ pub fn build_base(name: &'static str, script: &[Step]) -> Base {
                     go(&mut w, ev, &mut events);
                     n += 1;
                     if n > 2000 {
-                        engine::machinery_failure(&format!("base {name}: node {i} does not become leader on the default schedule"));
+                        return Err(BaseFailed(format!("node {i} does not become leader on the default schedule")));
                     }
                 }
             }
@@ -286,19 +314,19 @@ pub fn build_base(name: &'static str, script: &[Step]) -> Base {
                     go(&mut w, ev, &mut events);
                     n += 1;
                     if n > 3000 {
-                        engine::machinery_failure(&format!("base {name}: does not settle on the default schedule"));
+                        return Err(BaseFailed("does not settle on the default schedule".into()));
                     }
                 }
             }
         }
     }
-    Base { name, events, world: w }
+    Ok(Base { name, events, world: w })
 }
 
 pub fn bases(thorough: bool) -> Vec<Base> {
     use Event::*;
     use Step::*;
-    let mut v = vec![
+    let mut v: Vec<Option<Base>> = vec![
         build_base("initial", &[]),
         build_base("elected", &[Settle]),
         build_base("append-in-flight", &[Settle, AppendAtLeader]),
@@ -306,7 +334,9 @@ pub fn bases(thorough: bool) -> Vec<Base> {
         // leader 0 cut off with an entry nobody else has; 1 and 2 elect a new leader; partition heals now
         build_base("stale-leader-rejoins", &[Settle, Ev(Isolate(0)), AppendAt(0), Default(4), Settle, Ev(Heal)]),
         // same, and the new leader has appended an entry of its own that is committed by the majority
-        build_base("stale-leader-rejoins-after-new-commit", &[Settle, Ev(Isolate(0)), AppendAt(0), Default(4), Settle, AppendAtLeader, Settle, Ev(Heal)]),
+        build_base("stale-leader-rejoins-after-new-commit", &[Settle, Ev(Isolate(0)), AppendAt(0), Default(4), Settle, AppendAtLeaderOtherThan(0), Settle, Ev(Heal)]),
+        // same, the new leader is two committed entries ahead
+        build_base("stale-leader-rejoins-after-two-new-commits", &[Settle, Ev(Isolate(0)), AppendAt(0), Default(4), Settle, AppendAtLeaderOtherThan(0), Settle, AppendAtLeaderOtherThan(0), Settle, Ev(Heal)]),
         // leader 0 cut off; node 1 has just become candidate (its vote requests are in flight)
         build_base("reelection-in-progress-old-leader-cut-off", &[Settle, Ev(Isolate(0)), UntilCandidate(1)]),
         // node 0 wins the first election with node 1's vote only (its Vote request to node 2 is lost) and is cut
@@ -322,8 +352,9 @@ pub fn bases(thorough: bool) -> Vec<Base> {
     if thorough {
         v.push(build_base("two-entries-committed", &[Settle, AppendAtLeader, Settle, AppendAtLeader, Settle]));
         v.push(build_base("leader-cut-off-now", &[Settle, AppendAtLeader, Settle, Ev(Isolate(0))]));
-        v.push(build_base("stale-leader-rejoins-new-leader-uncommitted", &[Settle, AppendAtLeader, Settle, Ev(Isolate(0)), AppendAt(0), Default(4), Settle, AppendAtLeader, Ev(Heal)]));
+        v.push(build_base("stale-leader-rejoins-new-leader-uncommitted", &[Settle, AppendAtLeader, Settle, Ev(Isolate(0)), AppendAt(0), Default(4), Settle, AppendAtLeaderOtherThan(0), Ev(Heal)]));
     }
+    let mut v: Vec<Base> = v.into_iter().flatten().collect();
     for b in &mut v {
         b.world.check_consts();
     }
@@ -539,8 +570,15 @@ pub fn deviations(w: &World, cfg: &E2Cfg, base_appends: u8) -> Vec<Event> {
     if let Some(_head) = w.net.first() {
         d.push(Event::Drop(0));
         d.push(Event::DeliverDup(0));
-        d.push(Event::Delay(0));
-        d.push(Event::Hold(0));
+        // a request may be slow by one quantum (Delay); a reply may be held back without bound (Hold, below)
+        if matches!(_head.msg, crate::world::Msg::Req(..)) {
+            d.push(Event::Delay(0));
+        }
+        // unbounded delay: one reply at a time (requests are covered by Drop/Delay/Defer and, delayed
+        // without bound, by E1)
+        if w.held.is_empty() && matches!(_head.msg, crate::world::Msg::Resp(..)) {
+            d.push(Event::Hold(0));
+        }
         if w.net.len() >= 2 {
             d.push(Event::Defer(0));
         }
